@@ -380,7 +380,7 @@ fn startup_case(out: &mut Out, r: &mut Rng, cfg: &ProcCfg) {
     let live1 = sp.live_workers();
     let alive = sp.child.try_wait().ok().flatten().is_none();
     sp.signal(libc::SIGTERM);
-    let exit = sp.wait_exit(Duration::from_secs(6));
+    let exit = sp.wait_exit(Duration::from_secs(25)); // (prompt exit is C19's own regime; here only: it exits, status 0, no panic)
     let text = sp.log_text();
     let panics = text.matches("panicked").count();
     let leak = leak_scan(&secret_patterns(&cfg.seed), text.as_bytes()).unwrap_or("0".into());
@@ -558,7 +558,7 @@ fn workers_round(out: &mut Out, r: &mut Rng, nworkers: usize, nclients: usize, p
     let live = sp.live_workers();
     let alive = sp.child.try_wait().ok().flatten().is_none();
     sp.signal(libc::SIGTERM);
-    let exit = sp.wait_exit(Duration::from_secs(6));
+    let exit = sp.wait_exit(Duration::from_secs(25)); // (prompt exit is C19's own regime; here only: it exits, status 0, no panic)
     let panics = sp.log_text().matches("panicked").count();
     let pairs_s = all_pairs
         .iter()
